@@ -70,6 +70,7 @@ class Conn:
         self.inbox = []           # decoded messages not consumed by a monitor (for custom checks)
         self.pings = collections.deque()
         self.msglog = []
+        self.failed_at = []
         self.ledger = True        # responses / notifications on this connection are matched against requests
         self.last_seq = -1
 
@@ -211,6 +212,15 @@ class Session:
         p.sent_at = self.now
         c.nreq += 1
         p.seq = c.nreq
+        if method == "fetch" and isinstance(params, dict) and hostile:
+            k0 = id_key(params.get("id"))
+            f0 = c.fetches.get(k0) if k0 is not None else None
+            if f0 is not None and f0.state == "pending":
+                # the same fetch id is requested again while the first request is still in flight: which of the two
+                # the daemon accepts decides whose notifications follow; they are not judged
+                f0.opaque = True
+                f0.refs += 1
+                p.fetch = f0
         if method == "fetch" and isinstance(params, dict):
             fid = params.get("id")
             k = id_key(fid)
@@ -676,9 +686,11 @@ class Session:
         if not success and p.method == "fetch":
             f = getattr(p, "fetch", None)
             if f is not None:
-                if f.notes and not self.faults_active:
-                    self.v("replica/notifications-for-refused-fetch", "%d" % f.notes)
-                f.state = "ended"
+                f.refs -= 1
+                if f.refs <= 0:
+                    if f.notes and not self.faults_active and not f.opaque:
+                        self.v("replica/notifications-for-refused-fetch", "%d" % f.notes)
+                    f.state = "ended"
         p.state = "final"
         del c.pending[k]
         c.done[k] = p
@@ -856,6 +868,7 @@ class Session:
                     self.v("conn/frame-generated-after-release", "on %s" % c.name)
                 if ev[3] != 0:
                     c.failed_frames += 1
+                    c.failed_at.append((len(c.expected_wire), frame))
                     self.stats["frames_refused"] += 1
                     if c.healthy:
                         self.v("wire/send-failed-on-healthy-connection", "on %s" % c.name)
@@ -949,8 +962,14 @@ class Session:
                     c.healthy = False
             else:
                 if not bytes(c.expected_wire).startswith(bytes(c.wire)) and not c.torn_reported:
-                    c.torn_reported = True
-                    self.v("wire/stream-not-a-prefix-of-generated-frames", "on %s" % c.name)
+                    # the one legitimate exception: the head of a frame whose send failed, and then nothing else ever
+                    w, e = bytes(c.wire), bytes(c.expected_wire)
+                    ok = any(w.startswith(e[:L]) and F.startswith(w[L:]) for L, F in c.failed_at)
+                    if not ok:
+                        c.torn_reported = True
+                        self.v("wire/stream-not-a-prefix-of-generated-frames", "on %s" % c.name)
+                    else:
+                        self.stats["partial_frame_then_silence"] += 1
 
     def quiescent_checks(self, final=False):
         st = self.sim.stat()
@@ -1076,6 +1095,7 @@ Pending.may_refuse = False
 Pending.ambiguous = False
 Fetch.request = None
 Fetch.opaque = False
+Fetch.refs = 1
 
 
 def _j(x):
